@@ -316,7 +316,7 @@ def other_variant_cases(kind, rng, fns):
             cv = [_rq(rng, 0, 3) for _ in range(nbv)]
             vp = [F(-4), F(-3, 2), F(0), F(5, 2), F(4)]
             for bound in (0, 1, 2):
-                for cdt in (F(0), F(3, 8), F(-17, 2)):
+                for cdt in (F(0), F(3, 8), F(-17, 2), F(-8), F(8), F(-16), F(24)):      # the last four: exact multiples of the domain width
                     yield 'v_parallel_advection_eval_step', (lambda bound=bound, cdt=cdt, kv=kv, cv=cv, cubic=cubic:
                                                              [qlift._zeros(5), qlift.arr([x - cdt for x in vp]), F(3), F(-4), F(4), qlift.arr(kv), 3, qlift.arr(cv)]
                                                              + PRv + [bound, cubic]), [0]
